@@ -27,6 +27,8 @@ RULE = (
     "the datagram exactly as sent), msgFlags == level | reportable for confirmed-class PDUs, "
     "engine id/boots/time == discovered values, user name; client outcome == database truth. "
     "Distinct by (level, sweep kind, parameter)."
+    " (e) one client object first works as another user of the same engine (each other v3 lev"
+    "el) and is switched to the user under test by configure()."
 )
 ASSUMPTIONS = [
     "the reference agent (vf/agent.py, vf/ber.py) is the independent RFC 3414 implementation; its key localisation and HMAC are self-checked on RFC 3414 A.3 / RFC 2202 vectors at start",
